@@ -161,8 +161,10 @@ def run_tlc(workdir, module, *, cfg=None, workers=None, dump=False, coverage=Tru
         r.trace = parse_trace(out)
     elif "Error:" in out or p.returncode not in (0,):
         # anything else is a machinery failure (parse error, evaluation error, OOM ...)
-        tail = "\n".join(out.splitlines()[-40:])
-        raise MachineryError("TLC failed (rc=%s) on %s:\n%s" % (p.returncode, module, tail))
+        lines = out.splitlines()
+        idx = [i for i, l in enumerate(lines) if l.startswith("Error:") or "***Parse Error***" in l or "Semantic errors" in l]
+        msg = "\n".join(lines[idx[0]:idx[0] + 25]) if idx else "\n".join(lines[-40:])
+        raise MachineryError("TLC failed (rc=%s) on %s:\n%s" % (p.returncode, module, msg))
     else:
         r.ok = True
     return r
